@@ -383,6 +383,10 @@ class Translator:
             op = n["opcode"]
             if op in ("&&", "||"):
                 a = self.cond(n["inner"][0], st)
+                if op == "&&" and a.const is False:
+                    return P("False", True, False)       # C does not evaluate the right operand
+                if op == "||" and a.const is True:
+                    return P("True", True, True)
                 # short-circuit: the right operand must be free of writes
                 snap = (dict(st["locals"]), dict(st["mem"]), len(st["events"]))
                 b = self.cond(n["inner"][1], st)
@@ -445,6 +449,10 @@ class Translator:
                 st["events"].append('("%s", [])' % fn)
             lo, hi = trange(h[2])
             return E(nm, lo, hi, atom=True)
+        if kind == "ptrinput":        # ("ptrinput", pathName, record_event?): returns an object pointer named pathName
+            if len(h) > 2 and h[2]:
+                st["events"].append('("%s", [])' % fn)
+            return Path(h[1])
         raise KError("bad call handler for %s" % fn)
 
     # ---------- statements: returns Lean term (string) for "run stmts then rest"
